@@ -290,7 +290,7 @@ pub fn lattice_len(rng: &mut Rng, big: bool) -> usize {
     }
     // rarely: lengths around 2^16 — not a vint boundary, but the size of the reader's default buffer and of the async
     // adapter's transfer buffer, i.e. the natural threshold of any "large payload" path in reader or writer
-    if big && rng.chance(1, 500) {
+    if big && rng.chance(1, 4000) {
         return *rng.pick(&[65_534usize, 65_535, 65_536, 65_537, 65_536 + 4_096, 131_072]);
     }
     match rng.below(100) {
